@@ -1,9 +1,10 @@
 (* C14 -- MPI-striped clustering and reductions equal their serial counterparts.
    Property theorems only; model: Model/Mpi.v (over Model/Cluster.v); proofs: Proof/MpiBase.v, MpiIndex.v,
-   MpiKc.v, MpiProofs.v.  World size P >= 1 arbitrary, trajectory t on rank t mod P, any length vector.
+   MpiKc.v, MpiProofs.v, MpiPam.v, MpiInv.v (round 2: C01's invariant on the assembled state), MpiWarm.v
+   (round 2: MPI warm start).  World size P >= 1 arbitrary, trajectory t on rank t mod P, any length vector.
    Collectives are functions of the vector of per-rank contributions (MPI semantics, trusted), so a single
    model execution covers every arrival order of the ranks. *)
-From Coq Require Import List ZArith QArith Permutation.
+From Coq Require Import List ZArith QArith Permutation Lia.
 From EV Require Import Cluster ClusterBase ClusterInv ClusterPam ClusterTop ClusterExample.
 From EV Require Import Mpi MpiBase MpiIndex MpiKc MpiProofs MpiPam MpiInv MpiWarm.
 Import ListNotations.
